@@ -275,7 +275,6 @@ def discharge(ctx, body, p, ev, kind):
                     w = [x for x in subterms(pos[1][1]) if is_call(x, "[T]>::windows")]
                     if w and const_int(call_args(w[0])[1]) == const_int(hi[3]) and mentions(call_args(w[0])[0], lambda u: u == coll or (u[0] == "field" and coll[0] == "field" and u[3] == coll[3])):
                         return "G6-window-position-plus-window-size"
-            return None
         if last in ("index", "index_mut") and ("[T]" in nm or "Vec" in nm) and agg_variant(ev.args[1]) and agg_variant(ev.args[1])[1] in ("RangeTo", "RangeFrom", "Range"):
             # byte/element slices cut at the collection's own length or at min(.., its length, ..): always in range
             c0 = _lib.coll(ev.args[0])
@@ -423,9 +422,18 @@ def discharge(ctx, body, p, ev, kind):
 def contextual_discharge(ctx, helper, site_bb, kind):
     fx = ctx.fx
     f = fx.fn(helper)
-    if f is None or f.get("reachable") or (f.get("vis") == "pub" and f.get("reachable") is None):
-        return None     # reachable from outside the crate: its callers cannot be enumerated
-    callers = [k for k, g in fx.bodies() if k != helper and any(b["term"]["k"] == "call" and (b["term"]["func"]["path"] == helper or mir.norm_path(b["term"]["func"]["path"]) == helper) for b in g["blocks"])]
+    if f is not None and f.get("kind") == "Closure":
+        # a closure handed to an Option/Result combinator is applied where it is written (the combinator is evaluated as a match): its sites are
+        # judged with the conditions of the function that creates it; a closure that is not applied there gets no verdict
+        creator = helper.rsplit("::{closure", 1)[0]
+        made = sum(1 for _, g in fx.bodies() for b in g["blocks"] for s_ in b["stmts"] if s_["k"] == "assign" and s_["rv"]["k"] == "aggregate" and s_["rv"].get("closure") == helper)
+        if fx.fn(creator) is None or made != 1:
+            return None
+        callers = [creator]
+    else:
+        if f is None or f.get("reachable") or (f.get("vis") == "pub" and f.get("reachable") is None):
+            return None     # reachable from outside the crate: its callers cannot be enumerated
+        callers = [k for k, g in fx.bodies() if k != helper and any(b["term"]["k"] == "call" and (b["term"]["func"]["path"] == helper or mir.norm_path(b["term"]["func"]["path"]) == helper) for b in g["blocks"])]
     if not callers:
         return None
     rules = set()
